@@ -1526,6 +1526,14 @@ func (ro *RedisOutput) cleanupRecoveredBisyncCommitRecords(cli client.Redis, che
 		return
 	}
 
+	// Persist the rebuilt frontier before deleting the journal records it was
+	// rebuilt from (same order as flush()): with the records gone the old
+	// snapshot alone would move the next start behind this one.
+	if err := checkpoint.SaveBisyncFrontierSnapshot(cli, checkpoint.BisyncFrontierKey(checkpointName), frontier); err != nil {
+		ro.logger.Warnf("save recovered bisync frontier failed, keep commit records: checkpoint(%s), frontierSeq(%d), err(%v)", checkpointName, frontier.UnitSeq, err)
+		return
+	}
+
 	if err := checkpoint.DeleteBisyncCommitKeys(cli, keys); err != nil {
 		ro.logger.Warnf("delete recovered bisync commit records failed: checkpoint(%s), frontierSeq(%d), err(%v)", checkpointName, frontier.UnitSeq, err)
 	} else {
